@@ -63,6 +63,31 @@ func (c *vC11Case) set(i int, v int64) bool {
 	return true
 }
 
+// failedSet: a SetCursor that fails before anything is published (the cursors partition is read-only
+// for the duration of the call). The cursor keeps its value.
+func (c *vC11Case) failedSet(i int, v int64) {
+	p := c.srv.s.metadata.GetPartition(cursorsStream, 0)
+	if p == nil || p.IsPaused() {
+		return
+	}
+	id, st, pt := c.ident(i)
+	c.keyOf(i)
+	before := p.log.NewestOffset()
+	p.log.SetReadonly(true)
+	ctx, cancel := context.WithTimeout(context.Background(), 5*time.Second)
+	_, err := c.srv.api.SetCursor(ctx, &client.SetCursorRequest{Stream: st, Partition: pt, CursorId: id, Offset: v})
+	cancel()
+	p.log.SetReadonly(false)
+	if err == nil || p.log.NewestOffset() != before {
+		// not the failure this step is about (the publish went through, or may have): the history ends here
+		c.stats["set/failed-unclear"]++
+		c.stop = true
+		return
+	}
+	c.stats["set/failed-readonly"]++
+	c.evs = append(c.evs, vM{"op": "set", "k": i, "v": v, "ok": false})
+}
+
 func (c *vC11Case) fetch(i int) (int64, error) {
 	id, st, p := c.ident(i)
 	var last error
@@ -221,7 +246,7 @@ func TestVerifC11(t *testing.T) {
 		steps := 40 + r.intn(60)
 		next := int64(0)
 		for j := 0; j < steps && c.viol == "" && !c.stop; j++ {
-			switch r.pick(30, 30, 6, 4, 4, 8, 3, 2, 8) {
+			switch r.pick(30, 30, 6, 4, 4, 8, 3, 2, 8, 5) {
 			case 0:
 				next += int64(1 + r.intn(5))
 				v := next
@@ -259,6 +284,13 @@ func TestVerifC11(t *testing.T) {
 					installCache()
 				}
 				stats["op/restart"]++
+			case 9:
+				k := r.intn(nkeys)
+				c.failedSet(k, next+1000)
+				if r.intn(2) == 0 && c.viol == "" && !c.stop {
+					c.get(k)
+				}
+				stats["op/failed-set"]++
 			default:
 				c.observe()
 				stats["op/observe"]++
